@@ -31,6 +31,22 @@ def natD (s : String) : Nat := s.toNat?.getD 0
 
 def boolStr (b : Bool) : String := if b then "1" else "0"
 
+def bytesLt : Bytes → Bytes → Bool
+  | [], [] => false
+  | [], _ :: _ => true
+  | _ :: _, [] => false
+  | a :: as, b :: bs => if a < b then true else if b < a then false else bytesLt as bs
+
+def insertSorted (x : Bytes × List Bytes) : List (Bytes × List Bytes) → List (Bytes × List Bytes)
+  | [] => [x]
+  | y :: t => if bytesLt x.1 y.1 then x :: y :: t else y :: insertSorted x t
+
+/-- same rendering as vh.CanonHeader on the Go side: keys sorted, values in order, hex -/
+def canonHeader (h : List (Bytes × List Bytes)) : String :=
+  let sorted := h.foldl (fun acc x => insertSorted x acc) []
+  if sorted.isEmpty then "{}" else
+  ";".intercalate (sorted.map fun (k, vs) => hexOf k ++ "=" ++ ",".intercalate (vs.map hexOf))
+
 /-- One output line per input line; `step` returns the new state and the line to print. -/
 partial def loop {σ : Type} (h : IO.FS.Stream) (out : IO.FS.Stream) (step : σ → List String → σ × String) (s : σ) : IO Unit := do
   let line ← h.getLine
